@@ -27,7 +27,7 @@ PROP = "C20"
 LONG1 = "k" * 66 + "1"
 LONG2 = "k" * 66 + "2"
 # user keys a,b,c; names that coincide with automatic ones; names that a careless sanitiser / length cut-off would merge
-KEYS = ["a", "b", "c", "da_temp_1", "da_temp_2", "da_temp_3", "t 1", "t_1", LONG1, LONG2, "a_tmp", "b_1", "da_temp_10"]
+KEYS = ["a", "b", "c", "da_temp_1", "da_temp_2", "da_temp_3", "t 1", "t_1", LONG1, LONG2, "a_tmp", "b_1", "da_temp_10", "da_temp_9"]
 REPLICAS = ["pd", "pl", "db"]
 SPACE_NAME = {"pd": "DataModelSpace[pandas]", "pl": "DataModelSpace[polars]", "db": "DBSpace[sqlite]"}
 
@@ -401,7 +401,7 @@ def generate(run_seed: int, cfg: Dict[str, Any]) -> Dict[str, Any]:
     n_keys = rk.choice([2, 3, 4, 6])
     alphabet = sorted(rk.sample(KEYS[:3], min(3, max(1, n_keys - 1)))) + KEYS[3:3 + max(0, n_keys - 2)]
     if rk.random() < 0.4:
-        alphabet = alphabet + rk.choice([["t 1", "t_1"], [LONG1, LONG2], ["a", "a_tmp"], ["b", "b_1"], ["da_temp_1", "da_temp_10"]])
+        alphabet = alphabet + rk.choice([["t 1", "t_1"], [LONG1, LONG2], ["a", "a_tmp"], ["b", "b_1"], ["da_temp_1", "da_temp_10"], ["da_temp_10", "da_temp_9"]])
         alphabet = [k for i, k in enumerate(alphabet) if k not in alphabet[:i]]
     auto_rate = rk.choice([0.1, 0.3, 0.5])
     w = rk.choice([(4, 4, 2, 1, 1, 1), (6, 2, 2, 1, 1, 1), (2, 6, 2, 1, 1, 1), (3, 3, 4, 2, 1, 1)])
@@ -996,7 +996,7 @@ TIERS = {
                  "n_echo": 48, "max_report": 12},
 }
 RULE = ("one evaluation = one seeded history of 4-22 (thorough: 4-30) operations by 2-3 interleaved clients "
-        "(insert / execute / remove / retrieve / describe / keys with user keys a,b,c,da_temp_1..3 and automatic keys, "
+        "(insert / execute / remove / retrieve / describe / keys with user keys a,b,c,da_temp_1..3, da_temp_9, da_temp_10 and automatic keys, "
         "pipelines built from descriptions obtained earlier in the same history, possibly stale, possibly reading the key "
         "they write) plus a 6-operation epilogue, on one real space (run-seed mod 3: DataModelSpace over the Pandas "
         "executor, DataModelSpace over the Polars executor, DBSpace over in-memory SQLite behind the simulated "
